@@ -190,6 +190,12 @@ pub fn c15(cfg: &Cfg, rep: &mut Report) {
         c15_case(cfg, rep, cfg.case_seed(i), &cli, &dir, &wrapper);
     }
     if !cfg.flag("only_malformed") {
+        for i in 0..cfg.get_usize("big_cli_cases", if cfg.thorough { 4 } else { 1 }) {
+            if rep.too_many() {
+                break;
+            }
+            c15_big(cfg, rep, cfg.case_seed(9_000_000 + i), &cli, &dir, &wrapper);
+        }
         for i in 0..cfg.get_usize("wide_cases", if cfg.thorough { 4 } else { 1 }) {
             if rep.too_many() {
                 break;
@@ -770,4 +776,85 @@ fn c14cli_case(cfg: &Cfg, rep: &mut Report, case_seed: u64, cli: &str, dir: &Pat
     }
     let _ = std::fs::remove_dir_all(&exdir);
     let _ = show_vals;
+}
+
+/// big inputs at the command line: 30-60 statements with random conditions (grounded interpretation from the
+/// support-bounded oracle) or 64-90 statements with a condition chained over nearly all others (strong Kleene
+/// oracle); `--grd` in all three library modes and under every sort flag must print exactly the grounded line
+pub fn c15_big(_cfg: &Cfg, rep: &mut Report, case_seed: u64, cli: &str, dir: &Path, wrapper: &[String]) {
+    let mut rng = Rng::new(case_seed ^ 0xB15);
+    let tall = rng.bool();
+    let (g, text, want): (oracle::gen::GenAdf, String, Vec<Val>) = if tall {
+        let g = oracle::gen::gen_tall(&mut rng);
+        let t = g.render(&mut rng, true).text;
+        let w = oracle::gen::tall_grounded(&g);
+        (g, t, w)
+    } else {
+        let (g, t, sem) = crate::sem::large_case(case_seed);
+        let (w, _) = sem.grounded_rounds();
+        (g, t, w)
+    };
+    if g.labels.iter().any(|l| l.contains('\n') || l.contains('\r')) || !g.bio_safe() {
+        return;
+    }
+    rep.evaluations += 1;
+    rep.count(if tall { "big_cli_cases_tall" } else { "big_cli_cases_random" }, 1);
+    rep.max("max_statements_in_a_cli_run", g.n as u64);
+    let file = dir.join(format!("big-{}.adf", case_seed));
+    std::fs::write(&file, &text).expect("write case file");
+    let rec = oracle::grammar::recognise(&text).expect("generated text is valid");
+    let decl: Vec<String> = rec.statements.clone();
+    for lib in ["naive", "biodivine", "hybrid"] {
+        let sortflag = *rng.pick(&["", "--lx", "--an"]);
+        let order: Vec<String> = match sortflag {
+            "--lx" => {
+                let mut s = decl.clone();
+                s.sort_by(|a, b| a.as_bytes().cmp(b.as_bytes()));
+                s
+            }
+            "--an" => match build(&text, Sort::Alnum, false) {
+                Ok(o) => o.names,
+                Err(e) => {
+                    // (with ad-hoc model counting a tall framework cannot be built in-process: D14; the order is
+                    // only needed to construct the expected line, skip this flag then)
+                    let _ = e;
+                    continue;
+                }
+            },
+            _ => decl.clone(),
+        };
+        let pos: std::collections::HashMap<&String, usize> = g.labels.iter().enumerate().map(|(i, l)| (l, i)).collect();
+        let names_in_order: Vec<(usize, &String)> = order.iter().map(|l| (*pos.get(l).expect("label known"), l)).collect();
+        let wantline = line_of(&want, &names_in_order);
+        let mut args: Vec<String> = vec!["--lib".into(), lib.into(), "--grd".into()];
+        if !sortflag.is_empty() {
+            args.push(sortflag.into());
+        }
+        args.push(file.to_string_lossy().to_string());
+        let replay = json!({"property": "c15", "case_seed": case_seed.to_string(), "big_cli_case": true, "tall": tall, "statements": g.n, "args": args,
+            "adf": if text.len() < 6000 { text.clone() } else { format!("{}...", text.chars().take(6000).collect::<String>()) }});
+        let out = match run_cli(cli, &args, wrapper) {
+            Ok(o) => o,
+            Err(e) => {
+                rep.inconclusive.push(e);
+                return;
+            }
+        };
+        rep.count("invocations", 1);
+        if out.hung {
+            rep.violation("cli-hangs", format!("{:?}: no progress for 15 s (killed)", args), replay);
+            return;
+        }
+        if out.code != Some(0) {
+            rep.violation("cli-valid-input-fails", format!("exit status {:?} for {:?} ({} statements); stderr: {}", out.code, args, g.n, out.stderr.chars().take(300).collect::<String>()), replay);
+            return;
+        }
+        if out.stdout != format!("{}\n", wantline) {
+            rep.violation("cli-grounded-line", format!("{:?}: printed {:?}, expected {:?}", args, out.stdout.chars().take(400).collect::<String>(), wantline.chars().take(400).collect::<String>()), replay);
+            return;
+        }
+        rep.count("lines_checked", 1);
+    }
+    rep.nontrivial.insert(hash_str(&format!("bigcli{}", case_seed)));
+    let _ = std::fs::remove_file(&file);
 }
